@@ -119,6 +119,8 @@ def gen_case(rng, pool, big=False, avoid_trunc=True):
         nsym += 1
     # scheduler events (perf: the task is switched out and in again = a leaf call of the pseudo function
     # linux:schedule) and renames of running tasks (perf COMM events)
+    with_events = rng.random() < 0.25            # EVENT records in the .dat (read= / diff triggers): ignored by the exporters
+    uevents = []
     with_perf = rng.random() < 0.3
     sched_sym = None
     comms = []
@@ -145,9 +147,12 @@ def gen_case(rng, pool, big=False, avoid_trunc=True):
         tid = rng.choice(tasks)[0]
         st = stacks[tid]
         dt = rng.choice(steps)
-        if dt == 0 and (tid != last_tid or with_perf):
+        if dt == 0 and (tid != last_tid or with_perf or with_events):
             dt = 1                     # equal time stamps only inside one task (cross-task ties: property C06)
         clock += dt
+        if with_events and st and rng.random() < 0.15:
+            uevents.append((tid, clock, rng.choice([100001, 100003, 100002, 100004])))      # read/diff statm, page-fault
+            clock += 1
         if with_perf and st and rng.random() < 0.12:
             comms.append((clock, tid, rng.choice([b"worker", b'na"me', b"back\\slash", b"tab\there", b"\x01\x7f\xff", b"fifteen-bytes-xy",
                                                    "caf\u00e9".encode(), pool.one()])[:15]))
@@ -249,7 +254,7 @@ def gen_case(rng, pool, big=False, avoid_trunc=True):
     sample = min(sample, 999999999)
     exe = rng.choice(["prog", "prog", "a.out", "t-abc_1.2", "x"])
     return {"tasks": tasks, "syms": syms, "recs": recs, "sample": max(1, sample), "exe": exe,
-            "argsym": argsym, "strs": strs, "argkinds": argkinds, "sched_sym": sched_sym, "comms": comms,
+            "argsym": argsym, "strs": strs, "argkinds": argkinds, "sched_sym": sched_sym, "comms": comms, "uevents": uevents,
             "lead_in": [t[0] for t in tasks if with_perf and rng.random() < 0.5]}
 
 
@@ -280,8 +285,17 @@ def write_dir(case, d, cmdline=b"prog arg", with_cmdline=True, exename=None):
                "payload": payload(i),
                "sched": case.get("sched_sym") is not None and k in (case["sched_sym"], case["sched_sym"] + 1)}
               for i, (x, ent, k, t) in enumerate(case["recs"]) if x == tid]
+        for (etid, etm, eid) in case.get("uevents") or []:
+            if etid == tid:
+                n3 = 3 if eid in (100001, 100003) else 2             # statm: 3 values, page-fault: 2
+                rr.append({"t": etm, "type": datadir.EVENT, "depth": 0, "addr": eid, "sched": False, "uevent": True,
+                           "payload": struct.pack("<H", 8 * n3) + struct.pack("<%dQ" % n3, *([1000, 200, 30][:n3]))})
+        rr.sort(key=lambda r: r["t"])
         depth = 0
         for r in rr:                       # depth field as libmcount writes it
+            if r.get("uevent"):
+                r["depth"] = depth
+                continue
             if r["type"] == datadir.ENTRY:
                 r["depth"] = depth
                 depth += 1
@@ -290,7 +304,7 @@ def write_dir(case, d, cmdline=b"prog arg", with_cmdline=True, exename=None):
                 r["depth"] = depth
         tasks.append({"tid": tid, "pid": pid, "ppid": ppid, "recs": rr, "start": 200 + tid})
     perf = perf_file(case)
-    desc = {"syms": syms, "base": BASE, "tasks": tasks, "cmdline": cmdline, "events": bool(perf),
+    desc = {"syms": syms, "base": BASE, "tasks": tasks, "cmdline": cmdline, "events": bool(perf) or bool(case.get("uevents")),
             "exename": exename or ("/fake/" + case["exe"]), "args": bool(strs)}
     if perf:
         for t in tasks:        # the scheduler records of a task live in the perf file, not in its .dat
@@ -663,7 +677,7 @@ def evaluate_cases(ctx, cases, parsed, name="cases", flame_fixed=False):
 
 def case_json(c, p=None):
     j = {"tasks": c["tasks"], "syms": [s.hex() for s in c["syms"]], "recs": c["recs"], "sample": c["sample"],
-         "exe": c["exe"], "argkinds": c.get("argkinds") or "", "sched_sym": c.get("sched_sym"), "lead_in": c.get("lead_in") or [],
+         "exe": c["exe"], "argkinds": c.get("argkinds") or "", "sched_sym": c.get("sched_sym"), "lead_in": c.get("lead_in") or [], "uevents": c.get("uevents") or [],
          "comms": [[tm, tid, nm.hex()] for tm, tid, nm in (c.get("comms") or [])],
          "strs": {str(i): [[kd, x.hex() if kd == "s" else x] for kd, x in v] for i, v in (c.get("strs") or {}).items()}}
     if p is not None:
@@ -681,7 +695,7 @@ def case_json(c, p=None):
 def case_from_json(j):
     return {"tasks": [tuple(t) for t in j["tasks"]], "syms": [bytes.fromhex(s) for s in j["syms"]],
             "recs": [tuple(r) for r in j["recs"]], "sample": j["sample"], "exe": j["exe"],
-            "argkinds": j.get("argkinds") or "", "sched_sym": j.get("sched_sym"), "lead_in": j.get("lead_in") or [],
+            "argkinds": j.get("argkinds") or "", "sched_sym": j.get("sched_sym"), "lead_in": j.get("lead_in") or [], "uevents": [tuple(u) for u in (j.get("uevents") or [])],
             "comms": [(tm, tid, bytes.fromhex(nm)) for tm, tid, nm in (j.get("comms") or [])],
             "strs": {int(i): [(kd, bytes.fromhex(x) if kd == "s" else x) for kd, x in v]
                      for i, v in (j.get("strs") or {}).items()}}
@@ -1326,6 +1340,8 @@ def tags_of(c):
         t.append("perf:pre-empted")
     if c.get("lead_in"):
         t.append("perf:task-starts-with-sched-in")
+    if c.get("uevents"):
+        t.append("event-records-in-dat(ignored)")
     if c.get("comms"):
         t.append("perf:task-renamed")
         if any(b in (0x22, 0x5c) or b < 0x20 or b > 0x7e for _, _, nm in c["comms"] for b in nm):
@@ -1424,7 +1440,7 @@ def run(ctx):
         fixed.append({"tasks": [(100, 100, None)], "syms": [b"main", b"strfn"], "sample": 1, "exe": "prog", "argkinds": "ss",
                       "recs": [(100, True, 0, 1000), (100, True, 1, 1100), (100, False, 1, 1200), (100, False, 0, 1300)],
                       "strs": {1: [("s", b"\x01" * nn + b"\0"), ("s", b"zz\0")], 2: [("s", b"\x01" * (nn + 1) + b"\0")]}})
-    n = ctx.n(120, 1200)
+    n = ctx.n(100, 1200)
     d = os.path.join(ctx.scratch, "dir")
     i = -1
     while True:
